@@ -1126,3 +1126,26 @@ def back_edges(sg):
                     be.add((n.id, s))
         sg._back = be
     return sg._back
+
+
+def deep_subterms(S, t, depth=4, _seen=None):
+    """Sub-terms of t, following references to locals into the values assigned to those locals (arrays of
+    buffer slices, by-reference closure captures, ...)."""
+    _seen = set() if _seen is None else _seen
+    for x in subterms(t):
+        yield x
+        if depth > 0 and x[0] == 'loc' and x[1][0] == 'local':
+            _, cx, l = x[1]
+            if (cx, l) in _seen:
+                continue
+            _seen.add((cx, l))
+            for dn, part in S.defs.get((cx, l), []):
+                v = None
+                nd = S.sg.nodes[dn]
+                if not part:
+                    v = S.def_value(dn, cx, l)
+                elif nd.kind == 'assign':
+                    v = S.rvalue(dn, nd.d['rv'])
+                if v is not None:
+                    for y in deep_subterms(S, v, depth - 1, _seen):
+                        yield y
